@@ -384,7 +384,7 @@ CHECKS["C10"] = dict(
          "uxarray's own ops are generated only where the model defines them (one grid dimension, last; no coordinate along it; not on "
          "for integrate/gradient/difference/aggregation/remap/get_dual) - raises outside that domain are counted, not judged. Grid-dimension isel / "
          "subset are generated in ANY layout and on sub-grids too (2-3 selections in a row with arbitrary ops between), judged against plain "
-         "xarray isel by name at geometrically identified indices; grids of a run are in a reproducible warm/cold state recorded in the replay. The constructor sites of uxarray/{core,remap,subset,cross_sections} are enumerated with ast from the tree under test on every run and compared with the table (harness SITES <-> Lean UxCall); an unlisted site is a correspondence mismatch (exit 1, no-failing-input-found). UxDataset sites are listed as not exercisable under the installed xarray; to_dataset is probed and reported unusable.",
+         "xarray isel by name at geometrically identified indices; grids of a run are in a reproducible warm/cold state recorded in the replay. The constructor sites of uxarray/{core,remap,subset,cross_sections} are enumerated with ast from the tree under test on every run and compared with the table (harness SITES <-> Lean UxCall); an unlisted site is a correspondence mismatch (exit 1, no-failing-input-found). UxDataset sites are listed as not exercisable under the installed xarray; to_dataset is probed and reported unusable. positional selection of faces (the forms reaching UxDataArray.isel) and get_dual of node/face data were repaired (fixes 59da29e4, 070b700f) and are modelled as gridIsel / getDualR (get_dual_repaired_inv: every mesh). Remaining findings with reasons: n_node/n_edge positional indexing (no exact sub-grid exists for a set of nodes/edges: Grid.isel is inclusive), sel/head/tail/thin on n_face (run on a temporary Dataset inside xarray), edge-centred get_dual on partial meshes (no edge correspondence); apply_ufunc / rolling results stay plain DataArray because xarray constructs them itself. Repairs this round: positional selection of faces (the forms reaching UxDataArray.isel) and get_dual of node/face data (fixes 59da29e4, 070b700f), modelled as gridIsel / getDualR (get_dual_repaired_inv: every mesh). Remaining findings with reasons: n_node/n_edge positional indexing (no exact sub-grid exists for a set of nodes/edges: Grid.isel is inclusive), sel/head/tail/thin on n_face (run on a temporary Dataset inside xarray), edge-centred get_dual on partial meshes (no edge correspondence); apply_ufunc / rolling results stay plain DataArray because xarray constructs them itself.",
     technique="Lean 4 invariant theorem over an operation algebra with an observed constructor-path table + differential correspondence with Lean-evaluated step spec",
 )
 
@@ -395,16 +395,19 @@ CHECKS["C15"] = dict(
           "exactly when some real cyclic boundary segment crosses), exclude_map, nan_filter_compose (under any projection the kept positions are "
           "exactly the faces that neither cross nor project to NaN, with their own values, for frame, polygon and line exporters), split_map "
           "(every piece maps to its face, all faces present, data follow), ignore_map, *_meets_spec (refinement to the decidable Spec the driver "
-          "evaluates), step_inv/run_inv/export_history_free_partial/export_meets_spec_after_any_history_partial (after any history of caching "
-          "conversions a conversion returns what its own arguments determine), returned_geometry_stable (full strength), "
-          "returned_object_stable_partial; proved as-is counterexamples for the repaired defects (fixes b2818bfe, 52b55a0e, 0dcb168c) and for the "
-          "known findings. Tie: the real public API on generated grids x 5 exporters x 3 policies x 4 projections x 2 engines x random and "
+          "evaluates), ignore_map_projection, step_inv/run_inv/export_history_free/export_meets_spec_after_any_history (after EVERY history, cache=False "
+          "conversions included, a conversion returns what its own arguments determine: needs only the committed side-table restore), "
+          "returned_geometry_stable (full strength), returned_object_stable (under the un-applied frame-copy switch); the model carries repair "
+          "switches (Repairs.current = the code as it stands) and proved as-is counterexamples for the repaired defects (fixes b2818bfe, 52b55a0e, "
+          "0dcb168c, a88e1270, 6127899e, 0b7c0aa0, 3c5765ea) and for the one remaining known finding (asis_returned_frame_mutated). Tie: the real public API on generated grids x 5 exporters x 3 policies x 4 projections x 2 engines x random and "
           "directed histories; the Lean Spec is evaluated on every observed conversion, the Lean state machine is run on the same history, and "
           "every step is compared with the same conversion on a new grid. 'split' exports: every ring of all three exporters is checked for "
           ">= 180 degree segments and for the pieces' spherical area."),
-    note=_TB + "Partial: history-freedom is proved for histories of caching conversions (an un-cached conversion poisons the side tables: known "
-         "finding); object stability is proved for geometry in full and for columns unless a data-array frame conversion is served from the cache "
-         "(known finding); 'ignore' + projection and PolyCollection 'split' on clockwise faces are known findings. Which faces project to NaN, where "
+    note=_TB + "The former partial theorems are at full strength for the code as it stands: the *_meets_spec theorems and ignore_map_projection hold for "
+         "'ignore' with any projection on any grid (the hypotheses 'no face crosses / no face projects to NaN' are gone); with a projection the Spec "
+         "DEMANDS the projected coordinate system for every exported polygon (only 'split' pieces stay in lon/lat, as documented). One finding remains: "
+         "UxDataArray.to_geodataframe writes its data column into the cached frame that was already handed out - the identical cached frame is what "
+         "upstream tests specify (not small/safe to change); geometry of handed-out frames is proved stable unconditionally. Which faces project to NaN, where "
          "a projection's antimeridian lies and what antimeridian.fix_polygon returns are PARAMETERS; vertex matching against the mesh (float32 "
          "tolerance 1e-4 deg / 8 m projected) and split-piece tiling (spherical area, 1e-3) are differential tests; project= / "
          "exclude_nan_polygons= / exclude_antimeridian= are outside the quantifier and not generated. cartopy/antimeridian/shapely/pandas/"
